@@ -91,7 +91,14 @@ func (t *Union) Extend(x Type) error {
 func (t *Union) Validate(root *Root) (errs []error) {
 	// All members must be Objects and there must be at least one member.
 	if 0 < len(t.Members) {
-		for _, m := range t.Members {
+		for i, m := range t.Members {
+			for _, prev := range t.Members[:i] {
+				if prev.Name() == m.Name() {
+					errs = append(errs, fmt.Errorf("%w, %s is a member of union %s more than once at %d:%d",
+						ErrValidation, m.Name(), t.Name(), t.line, t.col))
+					break
+				}
+			}
 			if _, ok := m.(*Object); !ok {
 				errs = append(errs, fmt.Errorf("%w, %s can not be a union member since it is a %T, not an *ggql.Object at %d:%d",
 					ErrValidation, m.Name(), m, t.line, t.col))
